@@ -155,7 +155,13 @@ def f_wop(a):
     m = warm_wfsa(build_wfsa(a["A"], a["sr"], a.get("style", "int"), a.get("cls", "base")), a.get("pre"))
     name = a["fn"]
     e = {"op": "wop", "sr": srmodel(a["sr"]), "A": a["A"], "sigma": a["sigma"], "L": a["L"]}
-    if name in UNARY:
+    if name == "multiplicity":                     # field automata: m . A = lift(eps, m) * A
+        out = m.multiplicity(dec_w(m.R, a["m"]))
+        e["fn"], e["posts"], e["m"] = "scale", [], a["m"]
+    elif name == "threshold":                      # field automata: drop entries below an absolute threshold
+        out = m.threshold(dec_w(m.R, a["t"]))
+        e["fn"], e["posts"], e["t"] = "threshold", [], a["t"]
+    elif name in UNARY:
         fn, ident, posts = UNARY[name]
         out = fn(m)
         e["fn"], e["posts"] = ident, posts
@@ -291,6 +297,10 @@ def f_tsame(a):
     elif k == "xsec_out":
         e["fix"] = a["fix"]
         e["out"] = wfsa_proj(t(None, ustr(a["fix"])))
+    elif k == "coarsen":
+        # states merged pairwise, labels kept: a Boolean over-approximation of the relation's support
+        idx = {st_name(a.get("style", "int"), q): q for q in range(a["T"]["n"])}
+        e["out"] = fst_proj(t.coarsen(lambda q: ("c", idx[q] // 2), lambda x: x, lambda y: y))
     else:
         raise ValueError(k)
     return e
